@@ -174,6 +174,13 @@ func (s *vC03Steps) released(r *vC03SReader, readonly bool) {
 		return
 	}
 	r.phase, r.end = "failed", "readonly"
+	// "end of the read-only log" is a final verdict: the subscriber goes away. It may only be given
+	// when nothing is left above the HW - messages stored but not yet committed will be covered by a
+	// later HW advance and this subscriber, positioned before them, would never receive them.
+	if l := s.v.log.l; l.HighWatermark() < l.NewestOffset() {
+		s.fail("committed-reader-readonly-incomplete", fmt.Sprintf("reader %d (start %d, delivered %s) was ended with the read-only verdict while the log holds messages above the HW (HighWatermark() = %d, newest offset %d): they are not lost, a later HW advance commits them, and this subscriber never receives them",
+			r.id, r.start, vC03Ranges(r.offs), l.HighWatermark(), l.NewestOffset()))
+	}
 	if o, ok := s.pending(r); ok {
 		s.fail("committed-reader-readonly-incomplete", fmt.Sprintf("reader %d (start %d, delivered %s) was ended with the read-only verdict although offset %d is retained and committed (HighWatermark() = %d)",
 			r.id, r.start, vC03Ranges(r.offs), o, s.v.log.l.HighWatermark()))
@@ -539,6 +546,11 @@ var vC03StepPrefixes = [][]string{
 	// a positioned reader that has ALREADY sampled the HW and decided to wait: every word starts
 	// inside the window between checkHW and registerWait (words one letter shorter)
 	{"steps 1048576", "append 0 1 2 0", "sethw 0", "reader 0 0", "r 0", "r 0", "r 0"},
+	// an uncommitted tail (HW 0, newest 1) behind a freshly rolled, still EMPTY active segment (what the
+	// cleaner tick's checkAndPerformSplit leaves) and a reader that has consumed everything up to the
+	// HW and is about to park: read-only toggles and HW advances now decide whether it is released
+	// with the end-of-log verdict or keeps waiting for offset 1
+	{"steps 1048576", "append 0 1 2 0", "sethw 0", "roll", "reader 0 0", "r 0", "r 0", "r 0"},
 }
 
 func vC03StepWords(prefix int, maxLen int, visit func(prog []string)) {
@@ -787,7 +799,7 @@ func vC03StepsAll(t testing.TB, model *vModel, res *vResult, rnd *vRand) {
 	tSteps := time.Now()
 	for p := range vC03StepPrefixes {
 		ml := maxLen
-		if p == 3 {
+		if p >= 3 {
 			ml--
 		}
 		vC03StepWords(p, ml, func(prog []string) {
